@@ -2,8 +2,9 @@
 C03 — optimize() never lowers the weighted objective total.
 The acceptance rule of both local optimisers is strict improvement, otherwise revert
 (`C02.optRandomLoop_spec`, `C06.optimizeExhaustive_max`); "not lower" composes under repetition.
-The lift from local totals to the global total is the score faithfulness of localized objectives
-(C09): partial, see DESIGN.md.
+The lift from local totals to the global total (`optimize_never_lowers`, second half of this file)
+takes the score faithfulness of localized objectives as the hypothesis `TotalFaithful`; Props/C09
+derives it in exact arithmetic from the per-objective C09 identity.
 -/
 import DnaModel.Props.C02
 set_option linter.unusedVariables false
